@@ -2389,6 +2389,7 @@ pub fn run(src_dir: &str, out_dir: &str, locals: &crate::rename::Locals) -> (usi
     // locals renamed by a maintainer are renamed back to the pinned names (rename.rs): the state order of the loops and
     // the shape of the generated proofs depend on them
     let targets: Vec<Target> = targets.into_iter().map(|mut t| {
+        crate::desugar::desugar_fn(&mut t.item);
         if let Some(n) = locals.normalise(&format!("L:{}", t.key), &mut t.item) { report.insert(format!("renamed-locals:{}", t.key), n); }
         t
     }).collect();
